@@ -18,6 +18,8 @@ import (
 	"sync"
 	"sync/atomic"
 	"time"
+
+	"golang.org/x/net/internal/verifrt"
 )
 
 // vlpIvals is a tiny interval set (own code; deliberately not quic.rangeset).
@@ -361,7 +363,7 @@ func vlpRunTransfer(seed uint64, rc *vlpRunConfig, setup func(p *vlpPair), viol 
 		return res
 	}
 
-	var wg sync.WaitGroup
+	var wg verifrt.WG
 	var pending atomic.Int64
 	specByID := sync.Map{} // stream id -> *laneSet
 	type laneSet struct {
@@ -575,7 +577,7 @@ func vlpRunTransfer(seed uint64, rc *vlpRunConfig, setup func(p *vlpPair), viol 
 		}
 		pending.Add(3)
 		wg.Add(3)
-		var local sync.WaitGroup
+		var local verifrt.WG
 		local.Add(2)
 		go func() { defer local.Done(); writer(s, wl, spec, rngW, isInitiator, false, peerSide) }()
 		go func() { defer local.Done(); reader(s, rl, spec, rngR, !isInitiator) }()
